@@ -256,6 +256,10 @@ func run(r *core.Run) {
 		sc := genScenario(rd)
 		sc.dir = true
 		o := runProcs(sc)
+		if o.skipped {
+			r.Note("procs scenario %d abandoned without verdict: its child processes were not all ready within 120 s (overloaded machine)", i)
+			continue
+		}
 		r.Begin(sc.key()+fmt.Sprintf("procs%d", i), len(o.trace) > 0, "mode:procs")
 		tagCreation(r, sc)
 		r.Diff(o.line, o.impl)
